@@ -272,6 +272,7 @@ class Ctx:
         self.nontrivial = set()
         self.assumptions = []
         self.dist = {}
+        self.known = {f["signature"] for f in load_findings()["findings"] if f["property"] == pid and f.get("status", "known") == "known"}
 
     # --- bookkeeping -----------------------------------------------------------------------
     def oblige(self, name, ok, detail=""):
